@@ -25,7 +25,7 @@ func init() {
 
 func runC01(p *Prog, r *Report) {
 	r.Min("C01.R1", 11+3)
-	r.Min("C01.R2", 4)
+	r.Min("C01.R2", 2)
 	r.Min("C01.R3", 6+8)
 	r.Min("C01.R4", 4)
 	r.Min("C01.R5", 6)
@@ -194,8 +194,18 @@ func checkEngineMustCall(p *Prog, r *Report, E map[*ssa.Function]bool) {
 // composeFeasible: can segment B (starting at the loop header A ends at) follow A, judging by
 // their integer facts over len(<same term>) with B's header phis bound to A's incoming values?
 func composeFeasible(A, B *Seg) bool {
+	// lenTerm: canonical term of the argument of a len() call; a header phi of B stands for the
+	// value A sends into it
+	lenTerm := func(s *Seg, phiFrom *Seg, arg ssa.Value) string {
+		if ph, ok := arg.(*ssa.Phi); ok && phiFrom != nil && ph.Block() == s.Start {
+			if in := phiFrom.PhiIn(ph); in != nil {
+				return phiFrom.Term(in)
+			}
+		}
+		return s.Term(arg)
+	}
 	terms := map[string]bool{}
-	collect := func(s *Seg) {
+	collect := func(s *Seg, phiFrom *Seg) {
 		for _, f := range s.Facts {
 			var walk func(v ssa.Value, d int)
 			walk = func(v ssa.Value, d int) {
@@ -204,7 +214,7 @@ func composeFeasible(A, B *Seg) bool {
 				}
 				if c, ok := v.(*ssa.Call); ok {
 					if b, ok := c.Call.Value.(*ssa.Builtin); ok && b.Name() == "len" {
-						terms[s.Term(c.Call.Args[0])] = true
+						terms[lenTerm(s, phiFrom, c.Call.Args[0])] = true
 					}
 				}
 				if bo, ok := v.(*ssa.BinOp); ok {
@@ -215,12 +225,12 @@ func composeFeasible(A, B *Seg) bool {
 			walk(f.Cond, 0)
 		}
 	}
-	collect(A)
-	collect(B)
+	collect(A, nil)
+	collect(B, A)
 	holds := func(s *Seg, T string, n int64, phiFrom *Seg) bool {
 		bind := func(v ssa.Value) (int64, bool) {
 			if c, ok := v.(*ssa.Call); ok {
-				if b, ok := c.Call.Value.(*ssa.Builtin); ok && b.Name() == "len" && s.Term(c.Call.Args[0]) == T {
+				if b, ok := c.Call.Value.(*ssa.Builtin); ok && b.Name() == "len" && lenTerm(s, phiFrom, c.Call.Args[0]) == T {
 					return n, true
 				}
 			}
@@ -254,221 +264,400 @@ func composeFeasible(A, B *Seg) bool {
 
 // ---- R2 ----
 
-func checkChunkPartition(p *Prog, r *Report, E map[*ssa.Function]bool) {
-	found := 0
+// chunkFunc finds the function of package command that, inside a loop, slices a list of port
+// ranges and starts engines (helpers expanded in place).
+func chunkFunc(p *Prog, E map[*ssa.Function]bool) (*ssa.Function, *ssa.Slice) {
 	for _, fn := range p.SrcFuncs() {
-		if fn.Pkg != p.SPkg("command") || !E[fn] {
+		if fn.Pkg != p.SPkg("command") || !E[fn] || len(LoopHeaders(fn)) == 0 {
 			continue
 		}
-		var slices []*ssa.Slice
-		for _, b := range fn.Blocks {
+		for _, s := range PathsInl(fn).Segs {
+			for _, b := range s.Blocks {
+				for _, in := range b.Instrs {
+					if sl, ok := in.(*ssa.Slice); ok && strings.HasSuffix(types.TypeString(sl.X.Type(), nil), "pkg/scan.PortRange") {
+						return fn, sl
+					}
+				}
+			}
+		}
+	}
+	return nil, nil
+}
+
+type absVal struct {
+	isSlice bool
+	i       int64 // integer value, or offset of a slice into the original list
+	n       int64 // slice length
+}
+
+// chunkEval folds the chunking loop over a concrete number L of port ranges: integers and
+// sub-slices of the original list (offset, length) are evaluated, guards select the path.
+type chunkEval struct {
+	fn    *ssa.Function
+	L     int64
+	state map[*ssa.Phi]absVal
+	why   string
+}
+
+func (ev *chunkEval) portsOfParam(s *Seg, v ssa.Value) bool {
+	// *(&(...(&param.f1).f2).Ports) with the root resolving to a parameter of the chunk function
+	u, ok := v.(*ssa.UnOp)
+	if !ok || u.Op != token.MUL {
+		return false
+	}
+	fa, ok := u.X.(*ssa.FieldAddr)
+	if !ok || fieldName(fa.X.Type(), fa.Field) != "Ports" {
+		return false
+	}
+	var x ssa.Value = fa.X
+	for d := 0; d < 6; d++ {
+		x = s.Resolve(x)
+		if f2, ok := x.(*ssa.FieldAddr); ok {
+			x = f2.X
+			continue
+		}
+		break
+	}
+	prm, ok := x.(*ssa.Parameter)
+	return ok && prm.Parent() == ev.fn
+}
+
+func (ev *chunkEval) eval(s *Seg, v ssa.Value, d int) (absVal, bool) {
+	if d > 12 || v == nil {
+		return absVal{}, false
+	}
+	v = s.Resolve(v)
+	if k, ok := constInt(v); ok {
+		return absVal{i: k}, true
+	}
+	switch t := v.(type) {
+	case *ssa.Phi:
+		if a, ok := ev.state[t]; ok {
+			return a, true
+		}
+	case *ssa.Convert:
+		return ev.eval(s, t.X, d+1)
+	case *ssa.BinOp:
+		x, ok1 := ev.eval(s, t.X, d+1)
+		y, ok2 := ev.eval(s, t.Y, d+1)
+		if !ok1 || !ok2 || x.isSlice || y.isSlice {
+			return absVal{}, false
+		}
+		switch t.Op {
+		case token.ADD:
+			return absVal{i: x.i + y.i}, true
+		case token.SUB:
+			return absVal{i: x.i - y.i}, true
+		case token.MUL:
+			return absVal{i: x.i * y.i}, true
+		}
+	case *ssa.Call:
+		if b, ok := t.Call.Value.(*ssa.Builtin); ok {
+			switch b.Name() {
+			case "len":
+				x, ok := ev.eval(s, t.Call.Args[0], d+1)
+				if ok && x.isSlice {
+					return absVal{i: x.n}, true
+				}
+			case "min", "max":
+				best, okAll := absVal{}, true
+				for k, a := range t.Call.Args {
+					x, ok := ev.eval(s, a, d+1)
+					if !ok || x.isSlice {
+						okAll = false
+						break
+					}
+					if k == 0 || (b.Name() == "min" && x.i < best.i) || (b.Name() == "max" && x.i > best.i) {
+						best = x
+					}
+				}
+				if okAll {
+					return best, true
+				}
+			}
+		}
+	case *ssa.UnOp:
+		if ev.portsOfParam(s, t) {
+			return absVal{isSlice: true, i: 0, n: ev.L}, true
+		}
+	case *ssa.Slice:
+		base, ok := ev.eval(s, t.X, d+1)
+		if !ok || !base.isSlice || t.Max != nil {
+			return absVal{}, false
+		}
+		lo, hi := int64(0), base.n
+		if t.Low != nil {
+			x, ok := ev.eval(s, t.Low, d+1)
+			if !ok || x.isSlice {
+				return absVal{}, false
+			}
+			lo = x.i
+		}
+		if t.High != nil {
+			x, ok := ev.eval(s, t.High, d+1)
+			if !ok || x.isSlice {
+				return absVal{}, false
+			}
+			hi = x.i
+		}
+		if lo < 0 || hi < lo || hi > base.n {
+			ev.why = fmt.Sprintf("slice bounds [%d:%d] out of range for %d elements (panic)", lo, hi, base.n)
+			return absVal{}, false
+		}
+		return absVal{isSlice: true, i: base.i + lo, n: hi - lo}, true
+	}
+	return absVal{}, false
+}
+
+// consistent: every integer guard of the segment holds under the evaluation; guards on error
+// values must say "no error" (the fold follows the successful scan of every chunk).
+func (ev *chunkEval) consistent(s *Seg) (ok, decided bool) {
+	for _, f := range s.Facts {
+		c := f.Cond
+		truth := f.Truth
+		for {
+			if u, isU := c.(*ssa.UnOp); isU && u.Op == token.NOT {
+				c, truth = u.X, !truth
+				continue
+			}
+			break
+		}
+		bo, isB := c.(*ssa.BinOp)
+		if !isB {
+			return false, false
+		}
+		if isNilConst(bo.Y) || isNilConst(bo.X) {
+			other := bo.X
+			if isNilConst(bo.X) {
+				other = bo.Y
+			}
+			if isErrorType(other.Type()) {
+				if ((bo.Op == token.EQL) == truth) == false {
+					return false, true // an error path
+				}
+				continue
+			}
+			return false, false
+		}
+		x, ok1 := ev.eval(s, bo.X, 0)
+		y, ok2 := ev.eval(s, bo.Y, 0)
+		if !ok1 || !ok2 || x.isSlice || y.isSlice {
+			return false, false
+		}
+		var b bool
+		switch bo.Op {
+		case token.EQL:
+			b = x.i == y.i
+		case token.NEQ:
+			b = x.i != y.i
+		case token.LSS:
+			b = x.i < y.i
+		case token.LEQ:
+			b = x.i <= y.i
+		case token.GTR:
+			b = x.i > y.i
+		case token.GEQ:
+			b = x.i >= y.i
+		default:
+			return false, false
+		}
+		if b != truth {
+			return false, true
+		}
+	}
+	return true, true
+}
+
+func checkChunkPartition(p *Prog, r *Report, E map[*ssa.Function]bool) {
+	fn, _ := chunkFunc(p, E)
+	if fn == nil {
+		r.Undecided("C01.R2", "chunk loop", "-", "a function in package command slices the port-range list in a loop and starts engines", "not found")
+		return
+	}
+	name := FuncName(fn)
+	pos := p.Pos(fn.Pos())
+	fp := PathsInl(fn)
+	if fp.Truncated {
+		r.Undecided("C01.R2", name, pos, "paths enumerable", "too many paths")
+		return
+	}
+	// constants of the function: candidate chunk sizes
+	consts := map[int64]bool{}
+	for _, s := range fp.Segs {
+		for _, b := range s.Blocks {
 			for _, in := range b.Instrs {
-				if sl, ok := in.(*ssa.Slice); ok {
-					if _, f, isF := fieldLoad(sl.X); isF && f == "Ports" {
-						slices = append(slices, sl)
-					}
-				}
-			}
-		}
-		if len(slices) == 0 {
-			continue
-		}
-		found++
-		name := FuncName(fn)
-		pos := p.Pos(fn.Pos())
-		heads := loopHeadersSorted(fn)
-		if len(heads) != 1 || len(slices) != 1 {
-			r.Undecided("C01.R2", name, pos, "the chunking function is one loop with one slice of Ports", fmt.Sprintf("%d loops, %d slices", len(heads), len(slices)))
-			continue
-		}
-		H, sl := heads[0], slices[0]
-		fp := Paths(fn)
-		// the induction variable
-		var iv *ssa.Phi
-		for _, in := range H.Instrs {
-			if ph, ok := in.(*ssa.Phi); ok {
-				if bt, ok := ph.Type().Underlying().(*types.Basic); ok && bt.Info()&types.IsInteger != 0 {
-					iv = ph
-				}
-			}
-		}
-		if iv == nil {
-			r.Undecided("C01.R2", name, pos, "the chunk loop has an integer induction variable", "no integer phi at the loop header")
-			continue
-		}
-		// initial value
-		initOK := false
-		for i, pb := range H.Preds {
-			if !H.Dominates(pb) {
-				if c, ok := constInt(iv.Edges[i]); ok && c == 0 {
-					initOK = true
-				}
-			}
-		}
-		r.Check(initOK, "C01.R2", name+"/init", pos, "the chunk index starts at 0", "initial value is not 0")
-		baseTerm := ""
-		type probe struct{ i, L int64 }
-		var c int64 = -1
-		// step constant from the back edges
-		stepOK := true
-		for _, s := range fp.From(H) {
-			if s.End != H {
-				continue
-			}
-			in := s.PhiIn(iv)
-			bo, ok := in.(*ssa.BinOp)
-			if !ok || bo.Op != token.ADD || bo.X != ssa.Value(iv) {
-				stepOK = false
-				continue
-			}
-			k, ok := constInt(bo.Y)
-			if !ok || k <= 0 || (c >= 0 && c != k) {
-				stepOK = false
-				continue
-			}
-			c = k
-		}
-		if !r.Check(stepOK && c > 0, "C01.R2", name+"/step", pos, "the chunk index advances by one positive constant on every iteration", fmt.Sprintf("step %d", c)) {
-			continue
-		}
-		probes := []probe{{0, 1}, {0, c - 1}, {0, c}, {0, c + 1}, {c, c + 1}, {c, 2 * c}, {c, 2*c + 1}, {2 * c, 3*c - 1}}
-		okFold, why := true, ""
-		nBody := 0
-		var bodySegs []*Seg
-		for _, s := range fp.From(H) {
-			if !s.Has(sl) {
-				continue
-			}
-			bodySegs = append(bodySegs, s)
-			bt := s.Term(sl.X)
-			if baseTerm == "" {
-				baseTerm = bt
-			}
-			bind := func(pr probe) func(v ssa.Value) (int64, bool) {
-				return func(v ssa.Value) (int64, bool) {
-					if v == ssa.Value(iv) {
-						return pr.i, true
-					}
-					if c, ok := v.(*ssa.Call); ok {
-						if b, ok := c.Call.Value.(*ssa.Builtin); ok && b.Name() == "len" {
-							if s.Term(c.Call.Args[0]) == bt {
-								return pr.L, true
+				for _, op := range in.Operands(nil) {
+					if op != nil && *op != nil {
+						if k, ok := constInt(*op); ok && k > 1 && k < 100000 {
+							if bt, isB := (*op).Type().Underlying().(*types.Basic); isB && bt.Info()&types.IsInteger != 0 {
+								consts[k] = true
 							}
-							return 0, false
-						}
-					}
-					return 0, false
-				}
-			}
-			for _, pr := range probes {
-				if pr.L < 1 || pr.i >= pr.L {
-					continue
-				}
-				consistent := true
-				for _, f := range s.Facts {
-					b, ok := EvalCond(s, f.Cond, bind(pr))
-					if ok && b != f.Truth {
-						consistent = false
-					}
-				}
-				if !consistent {
-					continue
-				}
-				nBody++
-				lo, ok1 := int64(0), true
-				if sl.Low != nil {
-					lo, ok1 = EvalInt(s, sl.Low, bind(pr))
-				}
-				hi, ok2 := pr.L, true
-				if sl.High != nil {
-					hi, ok2 = EvalInt(s, sl.High, bind(pr))
-				}
-				if !ok1 || !ok2 {
-					okFold, why = false, "slice bounds are not integer expressions over the index, the step and len(Ports)"
-					continue
-				}
-				want := pr.i + c
-				if want > pr.L {
-					want = pr.L
-				}
-				if lo != pr.i || hi != want {
-					okFold, why = false, fmt.Sprintf("with index %d and %d port ranges the chunk is [%d:%d], expected [%d:%d] (ranges are skipped or scanned twice)", pr.i, pr.L, lo, hi, pr.i, want)
-				}
-			}
-		}
-		// loop test: i < len(same slice)
-		testOK := false
-		for _, s := range fp.From(H) {
-			for _, f := range s.Facts {
-				if bo, ok := f.Cond.(*ssa.BinOp); ok && bo.Op == token.LSS && bo.X == ssa.Value(iv) {
-					if c, ok := bo.Y.(*ssa.Call); ok {
-						if b, ok := c.Call.Value.(*ssa.Builtin); ok && b.Name() == "len" && s.Term(c.Call.Args[0]) == baseTerm {
-							testOK = true
 						}
 					}
 				}
 			}
 		}
-		r.Check(okFold && nBody >= 4 && testOK, "C01.R2", name+"/bounds", pos, "every iteration takes Ports[i:min(i+c,len)] of the slice whose length bounds the loop (folded over representative index/length pairs)", why)
-		// the per-chunk copy reaches the engine starter
-		okCopy, whyCopy := true, ""
-		for _, s := range bodySegs {
-			var starter *Event
-			for _, e := range s.Events {
-				if e.Kind == EvCall {
-					if g := StaticCallee(e.Call); g != nil && E[g] {
-						starter = e
-					}
-				}
-			}
-			if starter == nil {
-				if s.End == H {
-					okCopy, whyCopy = false, "an iteration does not start an engine for its chunk"
-				}
-				continue
-			}
-			var cp *ssa.Alloc
-			for _, a := range starter.Call.Args {
-				if al, ok := a.(*ssa.Alloc); ok {
-					cp = al
-				}
-				if prm, ok := a.(*ssa.Parameter); ok {
-					if _, isPtr := prm.Type().Underlying().(*types.Pointer); isPtr && !isContextType(prm.Type()) {
-						okCopy, whyCopy = false, "the engine starter receives the un-chunked configuration (every chunk scans all ports)"
-					}
-				}
-			}
-			if cp == nil {
-				if okCopy {
-					okCopy, whyCopy = false, "the engine starter does not receive a per-chunk copy"
-				}
-				continue
-			}
-			copied, ported := false, false
-			for _, e := range s.Events {
-				if e.Kind != EvStore || e.Ord > starter.Ord {
-					continue
-				}
-				if e.Addr == ssa.Value(cp) {
-					if u, ok := e.Val.(*ssa.UnOp); ok && u.Op == token.MUL {
-						if _, isP := u.X.(*ssa.Parameter); isP {
-							copied = true
-						}
-					}
-				}
-				if fa, ok := e.Addr.(*ssa.FieldAddr); ok && fieldName(fa.X.Type(), fa.Field) == "Ports" && derivesFromParam(fa, cp, 0) && e.Val == ssa.Value(sl) {
-					ported = true
-				}
-			}
-			if !copied || !ported {
-				okCopy, whyCopy = false, fmt.Sprintf("per-chunk configuration: copied from the original=%v, Ports set to the chunk=%v", copied, ported)
-			}
-		}
-		r.Check(okCopy, "C01.R2", name+"/chunk-config", pos, "the engine starter receives a copy of the configuration whose Ports is exactly the chunk", whyCopy)
 	}
-	if found == 0 {
-		r.Undecided("C01.R2", "chunk loop", "-", "a function in package command slices Ports and starts engines", "not found")
+	lens := map[int64]bool{1: true, 2: true, 3: true}
+	for c := range consts {
+		for _, L := range []int64{c - 1, c, c + 1, 2*c - 1, 2 * c, 2*c + 1, 3*c + 1} {
+			if L >= 1 && L <= 4000 {
+				lens[L] = true
+			}
+		}
 	}
+	var Ls []int64
+	for L := range lens {
+		Ls = append(Ls, L)
+	}
+	sort.Slice(Ls, func(i, j int) bool { return Ls[i] < Ls[j] })
+	isStarter := func(e *Event) bool {
+		if e.Kind != EvCall {
+			return false
+		}
+		g := StaticCallee(e.Call)
+		return g != nil && E[g] && g != fn
+	}
+	okPart, whyPart := true, ""
+	okCopy, whyCopy := true, ""
+	folded := 0
+	for _, L := range Ls {
+		ev := &chunkEval{fn: fn, L: L, state: map[*ssa.Phi]absVal{}}
+		cur := fn.Blocks[0]
+		var chunks []absVal
+		finished := false
+		for iter := 0; iter < 40 && !finished; iter++ {
+			var pick *Seg
+			n := 0
+			for _, s := range fp.From(cur) {
+				if s.IsSelectPanicTail() {
+					continue
+				}
+				ok, decided := ev.consistent(s)
+				if !decided {
+					if ev.why == "" {
+						ev.why = "a guard of the loop is not an integer comparison over the index, the chunk size and the list length"
+					}
+					n = -1000
+					break
+				}
+				if ok {
+					pick = s
+					n++
+				}
+			}
+			if n != 1 {
+				if ev.why == "" {
+					ev.why = fmt.Sprintf("%d paths are consistent with the folded values", n)
+				}
+				r.Undecided("C01.R2", name+"/bounds", pos, "the chunking loop can be folded over a concrete list length", fmt.Sprintf("with %d port ranges: %s", L, ev.why))
+				return
+			}
+			// the chunk handed to the engine starter on this path
+			for _, e := range pick.Events {
+				if !isStarter(e) {
+					continue
+				}
+				var cfg ssa.Value
+				for _, a := range e.Call.Args {
+					if !isContextType(a.Type()) {
+						cfg = pick.Resolve(a)
+					}
+				}
+				switch c := cfg.(type) {
+				case *ssa.Parameter:
+					// the original configuration: every range of the list
+					chunks = append(chunks, absVal{isSlice: true, i: 0, n: L})
+					if L > 1 && len(LoopHeaders(fn)) > 0 && pick.Start != fn.Blocks[0] {
+						okCopy, whyCopy = false, "the engine starter receives the un-chunked configuration inside the loop (every chunk scans all ports)"
+					}
+				case *ssa.Alloc:
+					var portsVal ssa.Value
+					copied := false
+					for _, e2 := range pick.Events {
+						if e2.Kind != EvStore || e2.Ord > e.Ord {
+							continue
+						}
+						if e2.Addr == ssa.Value(c) {
+							if u, ok := pick.Resolve(e2.Val).(*ssa.UnOp); ok && u.Op == token.MUL {
+								if prm, isP := pick.Resolve(u.X).(*ssa.Parameter); isP && prm.Parent() == fn {
+									copied = true
+								}
+							}
+						}
+						if fa, ok := e2.Addr.(*ssa.FieldAddr); ok && fieldName(fa.X.Type(), fa.Field) == "Ports" && derivesFromParam(fa, c, 0) {
+							portsVal = e2.Val
+						}
+					}
+					if !copied {
+						okCopy, whyCopy = false, "the per-chunk configuration is not a copy of the original one"
+					}
+					if portsVal == nil {
+						okCopy, whyCopy = false, "the per-chunk configuration keeps the complete port list"
+						chunks = append(chunks, absVal{isSlice: true, i: 0, n: L})
+						continue
+					}
+					cv, ok := ev.eval(pick, portsVal, 0)
+					if !ok || !cv.isSlice {
+						why := ev.why
+						if why == "" {
+							why = "its Ports is not a sub-slice of the original list"
+						}
+						r.Undecided("C01.R2", name+"/bounds", pos, "the chunk handed to the engine is a sub-slice of the original list", fmt.Sprintf("with %d port ranges: %s", L, why))
+						return
+					}
+					chunks = append(chunks, cv)
+				default:
+					r.Undecided("C01.R2", name+"/chunk-config", pos, "the configuration handed to the engine starter is the original or a local copy", "argument is "+pick.Term(cfg))
+					return
+				}
+			}
+			if pick.End == nil {
+				finished = true
+				break
+			}
+			// next state of the loop-carried values
+			next := map[*ssa.Phi]absVal{}
+			for _, in := range pick.End.Instrs {
+				ph, ok := in.(*ssa.Phi)
+				if !ok {
+					continue
+				}
+				if v, ok := ev.eval(pick, pick.PhiIn(ph), 0); ok {
+					next[ph] = v
+				}
+			}
+			ev.state = next
+			cur = pick.End
+		}
+		if !finished {
+			okPart, whyPart = false, fmt.Sprintf("with %d port ranges the loop does not terminate within 40 iterations (an index that never advances)", L)
+			continue
+		}
+		folded++
+		// the chunks partition [0,L) in order
+		at := int64(0)
+		good := true
+		for _, c := range chunks {
+			if c.i != at || c.n < 1 {
+				good = false
+			}
+			at = c.i + c.n
+		}
+		if at != L {
+			good = false
+		}
+		if !good {
+			var cs []string
+			for _, c := range chunks {
+				cs = append(cs, fmt.Sprintf("[%d:%d]", c.i, c.i+c.n))
+			}
+			okPart, whyPart = false, fmt.Sprintf("with %d port ranges the engines are started for %s: ranges are skipped or scanned twice", L, strings.Join(cs, " "))
+		}
+	}
+	r.Count("chunk_lengths_folded", folded)
+	r.Check(okPart && folded >= 5, "C01.R2", name+"/bounds", pos, "folded over representative list lengths, the chunks handed to the engine starter partition the port-range list in order (none missing, none repeated)", whyPart)
+	r.Check(okCopy, "C01.R2", name+"/chunk-config", pos, "the engine starter receives a copy of the configuration whose Ports is exactly the chunk", whyCopy)
 }
 
 // ---- R3 ----
@@ -676,16 +865,8 @@ func checkStarterChoice(p *Prog, r *Report) {
 				}
 			}
 		}
-		for _, b := range fn.Blocks {
-			for _, in := range b.Instrs {
-				if sl, ok := in.(*ssa.Slice); ok {
-					if _, f, isF := fieldLoad(sl.X); isF && f == "Ports" {
-						chunker = fn
-					}
-				}
-			}
-		}
 	}
+	chunker, _ = chunkFunc(p, engineReach(p))
 	if ctor == nil || chunker == nil {
 		r.Undecided("C01.R3", "starter choice", "-", "the packet-scan configuration constructor and the chunking starter are found", "not found")
 		return
@@ -1104,12 +1285,26 @@ func checkIteratorEmission(p *Prog, r *Report) {
 						}
 					}
 				}
-				good := iv != nil && add != nil && fill != nil && sub != nil &&
+				same := func(a, b ssa.Value) bool { return sx(a, 0) == sx(b, 0) }
+				inPlace := iv != nil && add != nil && fill != nil && sub != nil &&
 					add.Call.Args[2] == ssa.Value(iv) && sub.Call.Args[2] == ssa.Value(iv) &&
 					s.ord[iv] < s.ord[add] && s.ord[add] < s.ord[fill] && s.ord[fill] < s.ord[sub] &&
-					sx(add.Call.Args[0], 0) == sx(add.Call.Args[1], 0) && sx(sub.Call.Args[0], 0) == sx(sub.Call.Args[1], 0) &&
-					sx(add.Call.Args[0], 0) == sx(fill.Call.Args[0], 0) && sx(add.Call.Args[0], 0) == sx(sub.Call.Args[0], 0) &&
-					stripConvAll(before[0].Val) == ssa.Value(fill)
+					same(add.Call.Args[0], add.Call.Args[1]) && same(sub.Call.Args[0], sub.Call.Args[1]) &&
+					same(add.Call.Args[0], fill.Call.Args[0]) && same(add.Call.Args[0], sub.Call.Args[0])
+				// scratch variant: X.Add(base, Int()); X.FillBytes(..) with the base never modified in the loop
+				scratch := iv != nil && add != nil && fill != nil && sub == nil &&
+					((add.Call.Args[2] == ssa.Value(iv) && !same(add.Call.Args[0], add.Call.Args[1])) || (add.Call.Args[1] == ssa.Value(iv) && !same(add.Call.Args[0], add.Call.Args[2]))) &&
+					s.ord[iv] < s.ord[add] && s.ord[add] < s.ord[fill] && same(add.Call.Args[0], fill.Call.Args[0])
+				if scratch {
+					base := add.Call.Args[1]
+					if base == ssa.Value(iv) {
+						base = add.Call.Args[2]
+					}
+					if !strings.Contains(sx(base, 0), "baseIP") && !strings.Contains(sx(base, 0), "SetBytes") {
+						scratch = false
+					}
+				}
+				good := (inPlace || scratch) && stripConvAll(before[0].Val) == ssa.Value(fill)
 				if good {
 					// 4-byte buffer
 					if sl, isSl := fill.Call.Args[1].(*ssa.Slice); isSl {
